@@ -307,7 +307,7 @@ theorem initialActions_ok {env : Env} (hT : TableOk env) {g : Gss} {F : Nat} {he
       simp only [List.mem_append, List.mem_singleton] at hx
       rcases hx with hx | hx
       · exact h.acc x hx
-      · subst hx; exact ⟨hd, tk.kind, hhd, hact⟩
+      · subst hx; exact ⟨hd, tk, hhd, htk, hact⟩
 
 theorem initialHead_sat {env : Env} (hT : TableOk env) {g : Gss} {F : Nat} {sub : SubFrontier} (hsub : SubOk g F sub)
     {acc : List Reduction × List (Nat × Nat) × List Nat} (hacc : ListsOk env g F acc.1 acc.2.1 acc.2.2)
